@@ -82,7 +82,9 @@ def header_sums(fx):
             ls = [x["v"] for x in walk(c["sub"]) if x["k"] == "Str"]
             en = enum_refs(c["v"])
             if en and en[0] == "C0NN":
-                tl.add(sum(len(l) for l in ls) + 4)
+                sw_ = [nbytes(strip(x["a"][0])) or 0 for x in walk(c["sub"]) if x["k"] == "Call" and (x.get("fn") or "").endswith("setw") and x.get("a")]
+                # "Cnnn": either a ready-made 4-character string or 'C' + a width-3 number
+                tl.add(sum(len(l) for l in ls) + (sum(sw_) if sw_ else 4))
             else:
                 tl.add(sum(len(l) for l in ls))
     if len(tl) != 1:
@@ -792,5 +794,39 @@ def _run_rest(chk, fx):
             chk.instance(r_fz, key, sample=dict(writer=wname, block=fld.get(0), columns=fld.get(1), width=fld.get(2), setw=sorted(x for x in setw if x), wraps_on=sorted(mods)))
             if not okw:
                 chk.violation(r_fz, key, "%s takes (values per block, columns, width) from tuple fields %s and pads with setw(%s), wraps on %s: the triple of block_size_data_formatted is (block, columns, width) in fields 0, 1, 2 and sizeOnDiskFormatted reads it that way" % (wname, fld, sorted(x for x in setw if x), sorted(mods)), w["file"], w["l"])
+
+    # ---- C07.sticky: nothing leaves a persistent formatting state on the output file stream
+    r_sk = chk.rule("C07.sticky", "no insertion into the file stream of EclOutput applies a persistent (sticky) manipulator - setfill, setprecision, setbase, left/right/internal, hex/oct, fixed/scientific, showpos, uppercase, boolalpha, showpoint: such a state survives the statement and re-formats every array written afterwards (columns padded with '0', other bases or precisions); fixed-width fields use std::setw, which does not persist, or a private ostringstream", floor=15)
+    STICKY_CALL = ("setfill", "setprecision", "setbase", "setiosflags", "resetiosflags")
+    STICKY_REF = ("left", "right", "internal", "hex", "oct", "fixed", "scientific", "showpos", "uppercase", "boolalpha", "showpoint", "showbase", "hexfloat", "unitbuf")
+    for f in fx.fns:
+        if not f.get("body") or not f["file"].endswith("EclOutput.cpp"):
+            continue
+        tops_seen = set()
+        for n in walk(f["body"]):
+            if n["k"] != "OpCall" or n.get("op") != "<<" or id(n) in tops_seen:
+                continue
+            # leftmost operand of the chain
+            chain = [n]
+            x = n
+            while strip(x["a"][0]).get("k") == "OpCall" and strip(x["a"][0]).get("op") == "<<":
+                x = strip(x["a"][0])
+                chain.append(x)
+            for c_ in chain:
+                tops_seen.add(id(c_))
+            root_ = strip(x["a"][0])
+            if not (root_.get("k") == "Mem" and root_.get("n") == "ofileH"):
+                continue
+            bad = []
+            for c_ in chain:
+                rhs = strip(c_["a"][1]) if len(c_.get("a") or []) > 1 else {}
+                if rhs.get("k") == "Call" and (rhs.get("fn") or "").split("::")[-1].split("<")[0] in STICKY_CALL:
+                    bad.append((rhs.get("fn") or "").split("::")[-1].split("<")[0])
+                if rhs.get("k") in ("Ref", "ULookup", "Cast") and any(y.get("k") in ("Ref", "ULookup") and y.get("n") in STICKY_REF and "std" in ((y.get("q") or "") + (y.get("qual") or "")) for y in walk(rhs)):
+                    bad.append([y.get("n") for y in walk(rhs) if y.get("n") in STICKY_REF][0])
+            key = "%s@%s" % (f["n"], n["l"] - f["l"])
+            chk.instance(r_sk, key, sample=dict(function=f["q"], statement=show(n)[:90], sticky=bad))
+            if bad:
+                chk.violation(r_sk, key, "%s applies %s to the file stream itself: the setting persists after this statement, so every number written to this file afterwards is formatted with it (e.g. columns padded with '0' instead of blanks)" % (f["q"], ", ".join("std::" + b for b in bad)), f["file"], n["l"])
 
     chk.assumptions += ["tables/ecl_layout.json: published Eclipse file-format constants"]
